@@ -249,5 +249,5 @@ def run(ctx):
                 'reference has >= 2 findings; walk = 8 (quick) / 14 (thorough) single-option changes from a random '
                 'state, non-trivial if >= 2 steps altered the reference findings')
     _sweep(ctx)
-    n = ctx.n(16, 200)
+    n = ctx.n(12, 200)
     pmap(lambda i: _walk(ctx, i), list(range(n)), workers=8 if ctx.quick() else 10)
